@@ -4,6 +4,7 @@ From Coq Require Import List String NArith Bool.
 From FB Require Import Lib.Bytes Gen.RustDispatch Model.Server Model.ServerCmp Spec.Requests Spec.Replies
   Proofs.ServerPerform Proofs.ServerReply Proofs.ServerDecide Proofs.ServerHandle
   Proofs.ServerDispatch Proofs.ServerEncode Proofs.ServerEncodeDir Proofs.ServerEncodeLift.
+From FB Require Import Spec.WfReq Model.Notify Spec.Notify Proofs.ServerEndToEnd Proofs.NotifyProofs.
 Import ListNotations.
 Local Open Scope string_scope.
 Local Open Scope list_scope.
@@ -254,6 +255,123 @@ Example C03_roundtrip_nonvacuous_readdirplus :
   blen (fill_dirents ex_dirents true 400 []) = 328.
 Proof. vm_compute. repeat split; reflexivity. Qed.
 
+
+(* ====================================================================== end to end (C02 + C03)
+   For EVERY well-formed request [q] (Spec/WfReq.v), laid out by the kernel-side encoder
+   [encode_req]: the side hypotheses of C03_roundtrip about the request bytes are theorems ... *)
+Theorem C03_encode_req_facts : forall q, wf_req q = true ->
+  u32 4 (encode_req q) = q_op q /\ u64 8 (encode_req q) = q_unique q /\
+  (q_op q = 28 \/ q_op q = 44 -> u32 56 (encode_req q) = fld q "size").
+Proof. exact encode_req_facts. Qed.
+
+(* ... the action handle_message takes is the one of the opcode's line in [post_action]
+   (the operation is reached: C02_decode_exact) ... *)
+Theorem C03_decide_action : forall cfg q fs cap du dg,
+  wf_req q = true -> cfg_remap cfg = RemapOk du dg -> env_ok cfg cap q = true ->
+  kind_ok (q_op q) fs = true ->
+  exists a, post_action (q_op q) (cfg_minor cfg) cap (fld q "size") fs = Some a /\
+            snd (fst (decide cfg (encode_req q) fs cap)) = a.
+Proof. exact decide_action_post. Qed.
+
+(* ... and so: request in, filesystem answer [fs] of a kind the operation returns, reply fits
+   the buffer  ==>  exactly one packet, from which the kernel reads [fs] back.
+   ([kind_ok] implies the opcode is one the client waits on: C03_kind_ok_needs_answer.) *)
+Theorem C03_end_to_end : forall cfg q fs cap du dg minor,
+  wf_req q = true -> cfg_remap cfg = RemapOk du dg -> env_ok cfg cap q = true ->
+  cfg_minor cfg = minor ->
+  kind_ok (q_op q) fs = true -> reply_fits q cap fs -> cap < 2 ^ 32 ->
+  action_len (snd (fst (decide cfg (encode_req q) fs cap))) <= cap ->
+  exists p, o_packets (h_outcome (handle cfg FuseDev cap (encode_req q) fs)) = [p] /\
+            reply_ok q minor fs p = true.
+Proof. exact end_to_end. Qed.
+
+Theorem C03_end_to_end_virtio : forall cfg q fs cap du dg minor,
+  wf_req q = true -> cfg_remap cfg = RemapOk du dg -> env_ok cfg cap q = true ->
+  cfg_minor cfg = minor ->
+  kind_ok (q_op q) fs = true -> reply_fits q cap fs -> cap < 2 ^ 32 ->
+  action_len (snd (fst (decide cfg (encode_req q) fs cap))) <= cap ->
+  o_packets (h_outcome (handle cfg Virtio cap (encode_req q) fs)) = [] /\
+  reply_ok q minor fs (o_mem (h_outcome (handle cfg Virtio cap (encode_req q) fs))) = true.
+Proof. exact end_to_end_virtio. Qed.
+
+Theorem C03_kind_ok_needs_answer : forall op fs, kind_ok op fs = true -> needs_answer op = true.
+Proof. exact kind_ok_needs_answer. Qed.
+
+(* instances, computed: a MKDIR answered with an entry; a READDIRPLUS offered two entries
+   (160 and 168 bytes) with size 300, which cuts the second *)
+Definition ex_mkdir : wfreq :=
+  {| q_op := 9; q_unique := 18446744073709551615; q_nodeid := 1; q_uid := 1000; q_gid := 1000; q_pid := 77;
+     q_fields := [("mode", 493); ("umask", 18)];
+     q_name1 := [100; 105; 114]; q_name2 := []; q_payload := []; q_pairs := []; q_flags2 := None |}.
+Definition ex_readdirplus_cut : wfreq :=
+  {| q_op := 44; q_unique := 101; q_nodeid := 1; q_uid := 0; q_gid := 0; q_pid := 1;
+     q_fields := [("fh", 3); ("offset", 0); ("size", 300)];
+     q_name1 := []; q_name2 := []; q_payload := []; q_pairs := []; q_flags2 := None |}.
+Definition ex_dirents2 : list (dirent * entry) := firstn 2 ex_dirents.
+
+Example C03_end_to_end_mkdir :
+  let q := ex_mkdir in let fs := FEntry ex_entry in
+  (wf_req q = true /\ env_ok ex_cfg 8192 q = true /\ kind_ok (q_op q) fs = true /\ reply_fits q 8192 fs /\
+   action_len (snd (fst (decide ex_cfg (encode_req q) fs 8192))) <= 8192) /\
+  exists p, o_packets (h_outcome (handle ex_cfg FuseDev 8192 (encode_req q) fs)) = [p] /\
+            List.length p = 144%nat /\ reply_ok q 33 fs p = true.
+Proof.
+  split; [vm_compute; repeat split; try reflexivity; discriminate|].
+  eexists. split; [vm_compute; reflexivity|]. split; vm_compute; reflexivity.
+Qed.
+
+Example C03_end_to_end_readdirplus_cut :
+  let q := ex_readdirplus_cut in let fs := FDirents ex_dirents2 in
+  (wf_req q = true /\ env_ok ex_cfg 8192 q = true /\ kind_ok (q_op q) fs = true /\ reply_fits q 8192 fs /\
+   action_len (snd (fst (decide ex_cfg (encode_req q) fs 8192))) <= 8192) /\
+  List.length (fitting_prefix true ex_dirents2 300) = 1%nat /\
+  exists p, o_packets (h_outcome (handle ex_cfg FuseDev 8192 (encode_req q) fs)) = [p] /\
+            List.length p = 176%nat /\ reply_ok q 33 fs p = true.
+Proof.
+  split; [vm_compute; repeat split; try reflexivity; discriminate|].
+  split; [vm_compute; reflexivity|].
+  eexists. split; [vm_compute; reflexivity|]. split; vm_compute; reflexivity.
+Qed.
+
+(* ====================================================================== notifications
+   The three notification builders (Model/Notify.v), for ALL arguments: a message that fits the
+   writer goes out as exactly one write call carrying the whole message; one that does not fit
+   fails (FailedToWrite) with nothing written; and the message is what the kernel reads
+   (Spec/Notify.v: unique 0, error field = the notify code, length field = total size, the
+   struct fields by kernel field name, the name with its NUL). *)
+Theorem C03_notify_one_write : forall cap n,
+  blen (notify_msg n) <= cap -> run_notify cap n = Some [notify_msg n].
+Proof. exact notify_one_write. Qed.
+
+Theorem C03_notify_too_big : forall cap n,
+  cap < blen (notify_msg n) -> run_notify cap n = None.
+Proof. exact notify_too_big. Qed.
+
+Theorem C03_notify_msg_ok : forall n,
+  blen (notify_msg n) < 2 ^ 32 -> notify_ok n (notify_msg n) = true.
+Proof. exact notify_msg_ok. Qed.
+
+Theorem C03_notify_len : forall n,
+  blen (notify_msg n) =
+  match n with NInvalEntry _ name => 33 + blen name | NInvalInode _ _ _ => 40 | NResend => 16 end.
+Proof. exact notify_msg_len. Qed.
+
+Theorem C03_notify : forall cap n,
+  cap < 2 ^ 32 -> blen (notify_msg n) <= cap ->
+  exists p, run_notify cap n = Some [p] /\ notify_ok n p = true.
+Proof. exact notify_run_ok. Qed.
+
+Example C03_notify_nonvacuous :
+  let n := NInvalEntry 18446744073709551615 [102; 111; 111] in
+  blen (notify_msg n) = 36 /\ (exists p, run_notify 36 n = Some [p] /\ notify_ok n p = true) /\
+  run_notify 35 n = None /\
+  run_notify 40 (NInvalInode 7 4096 18446744073709551615) = Some [notify_msg (NInvalInode 7 4096 18446744073709551615)] /\
+  run_notify 15 NResend = None.
+Proof.
+  split; [vm_compute; reflexivity|]. split; [eexists; split; vm_compute; reflexivity|].
+  vm_compute. repeat split; reflexivity.
+Qed.
+
 Print Assumptions C03_errno_negated.
 Print Assumptions C03_error_kind_table.
 Print Assumptions C03_error_kind_valid.
@@ -284,3 +402,13 @@ Print Assumptions C03_action_roundtrip.
 Print Assumptions C03_roundtrip.
 Print Assumptions C03_roundtrip_virtio.
 Print Assumptions C03_entry_paths_agree.
+Print Assumptions C03_encode_req_facts.
+Print Assumptions C03_decide_action.
+Print Assumptions C03_end_to_end.
+Print Assumptions C03_end_to_end_virtio.
+Print Assumptions C03_kind_ok_needs_answer.
+Print Assumptions C03_notify_one_write.
+Print Assumptions C03_notify_too_big.
+Print Assumptions C03_notify_msg_ok.
+Print Assumptions C03_notify_len.
+Print Assumptions C03_notify.
